@@ -659,6 +659,8 @@ impl Heap {
   ///
   /// It should be called during incremental marking.
   pub fn mark(&mut self, p_str: PStr) {
+    #[cfg(samlang_verif)]
+    verif::log_mark(p_str);
     if let Some(id) = p_str.0.as_heap_id() {
       match &mut self.str_pointer_table[id as usize] {
         StringStoredInHeap::Permanent(_) | StringStoredInHeap::Deallocated(_) => {}
@@ -710,6 +712,26 @@ impl Heap {
 impl Default for Heap {
   fn default() -> Self {
     Self::new()
+  }
+}
+
+/// Verification hook: the sequence of strings passed to `Heap::mark` (add-only, compiled only with
+/// `--cfg samlang_verif`).
+#[cfg(samlang_verif)]
+pub mod verif {
+  use super::PStr;
+  use std::cell::RefCell;
+
+  thread_local! {
+    static MARK_LOG: RefCell<Vec<PStr>> = const { RefCell::new(Vec::new()) };
+  }
+
+  pub(super) fn log_mark(p_str: PStr) {
+    MARK_LOG.with(|l| l.borrow_mut().push(p_str));
+  }
+
+  pub fn take_mark_log() -> Vec<PStr> {
+    MARK_LOG.with(|l| std::mem::take(&mut *l.borrow_mut()))
   }
 }
 
